@@ -1272,6 +1272,17 @@ class SQLModel:
         )
         return near_sql
 
+    @staticmethod
+    def _prune_declared_term_dependencies(subsql) -> None:
+        """
+        Keep declared_term_dependencies parallel to terms after terms were narrowed in place.
+        """
+        deps = getattr(subsql, "declared_term_dependencies", None)
+        if (deps is not None) and (subsql.terms is not None):
+            subsql.declared_term_dependencies = {
+                k: v for (k, v) in deps.items() if k in subsql.terms
+            }
+
     def select_columns_to_near_sql(
         self,
         select_columns_node,
@@ -1307,6 +1318,7 @@ class SQLModel:
             }
         else:
             subsql.terms = []
+        self._prune_declared_term_dependencies(subsql)
         return subsql
 
     def drop_columns_to_near_sql(
@@ -1338,6 +1350,7 @@ class SQLModel:
             for k in using
             if k not in drop_columns_node.column_deletions
         }
+        self._prune_declared_term_dependencies(subsql)
         return subsql
 
     def order_to_near_sql(
